@@ -114,6 +114,20 @@ def _parseval(ck, D, N):
         if C == 2:
             encc = Encoded(lambda L, u, v: M.MSE(u[0:1], v[0:1], domain_extent=L) + M.MSE(u[1:2], v[1:2], domain_extent=L), ins, tag="pvc")
             ck.add(f"{tag}/channel-additivity", sym.equal_goal(o[0], encc.outs[0][()]), [L > 0], family="metrics add over channels", replay=rp)
+            # the root metrics are documented as sums over channels of per-channel roots (same program, same Ackermannised roots)
+            encr = Encoded(lambda L, u, v: (M.RMSE(u, v, domain_extent=L), M.RMSE(u[0:1], v[0:1], domain_extent=L) + M.RMSE(u[1:2], v[1:2], domain_extent=L),
+                                            M.MAE(u, v, domain_extent=L), M.MAE(u[0:1], v[0:1], domain_extent=L) + M.MAE(u[1:2], v[1:2], domain_extent=L)), ins, tag="pvr")
+
+            def rp_r(model):
+                rng = np.random.default_rng(5)
+                u_ = jnp.asarray(rng.normal(size=(2,) + (N,) * D))
+                v_ = jnp.asarray(rng.normal(size=(2,) + (N,) * D))
+                a_ = float(M.RMSE(u_, v_, domain_extent=1.3))
+                b_ = float(M.RMSE(u_[0:1], v_[0:1], domain_extent=1.3) + M.RMSE(u_[1:2], v_[1:2], domain_extent=1.3))
+                return {"reproduced": abs(a_ - b_) > 1e-9, "detail": f"RMSE of a 2-channel pair {a_!r} vs sum of the per-channel RMSEs {b_!r}"}
+
+            ck.add(f"{tag}/channel-additivity-RMSE", sym.equal_goal(encr.outs[0][()], encr.outs[1][()]), [L > 0] + encr.interp.sound_facts(), family="metrics add over channels", timeout=120, replay=rp_r)
+            ck.add(f"{tag}/channel-additivity-MAE", sym.equal_goal(encr.outs[2][()], encr.outs[3][()]), [L > 0] + encr.interp.sound_facts(), family="metrics add over channels", timeout=120, replay=rp_r)
         if C == 1:
             # reachability twin on a thin slice (one non-zero sample): MSE = 2 fourier_MSE is refutable, i.e. the harness reaches the comparison
             u, vv = ins[1].sym, ins[2].sym
@@ -176,7 +190,9 @@ def _bands(ck, D, N):
         parts = [M.fourier_MSE(u, v, domain_extent=L, low=0, high=0)]
         for a, b in zip(cuts[:-1], cuts[1:]):
             parts.append(M.fourier_MSE(u, v, domain_extent=L, low=a + 1, high=b))
-        return full, sum(parts)
+        # the same partition with open ends: [.., 1] (low omitted) and [2, ..] (high omitted)
+        open_ends = M.fourier_MSE(u, v, domain_extent=L, high=1) + (M.fourier_MSE(u, v, domain_extent=L, low=2) if top > 1 else 0.0)
+        return full, sum(parts), open_ends
 
     enc = Encoded(f, ins, tag="bd")
     enc.validate(ck, what=f"bands/D{D}N{N}")
@@ -185,10 +201,19 @@ def _bands(ck, D, N):
         rng = np.random.default_rng(1)
         u = jnp.asarray(rng.normal(size=(C,) + (N,) * D))
         v = jnp.asarray(rng.normal(size=(C,) + (N,) * D))
-        full, parts = f(1.3, u, v)
+        full, parts, _ = f(1.3, u, v)
         return {"reproduced": abs(float(full) - float(parts)) > 1e-9 * max(1.0, abs(float(full))), "detail": f"fourier_MSE full spectrum {float(full)!r} vs sum over the band partition {float(parts)!r} on a random pair"}
 
     ck.add(f"bands/D{D}N{N}/partition", sym.equal_goal(enc.outs[0][()], enc.outs[1][()]), pre, family="Fourier metric is additive over a full band partition", timeout=300, replay=replay)
+
+    def replay_open(model):
+        rng = np.random.default_rng(1)
+        u = jnp.asarray(rng.normal(size=(C,) + (N,) * D))
+        v = jnp.asarray(rng.normal(size=(C,) + (N,) * D))
+        full, _, op = f(1.3, u, v)
+        return {"reproduced": abs(float(full) - float(op)) > 1e-9 * max(1.0, abs(float(full))), "detail": f"fourier_MSE full spectrum {float(full)!r} vs band [..,1] + band [2,..] with the open ends omitted {float(op)!r} on a random pair"}
+
+    ck.add(f"bands/D{D}N{N}/open-ended-partition", sym.equal_goal(enc.outs[0][()], enc.outs[2][()]), pre, family="Fourier metric is additive over a full band partition", timeout=300, replay=replay_open)
 
 
 def _h1(ck, D, N):
